@@ -13,9 +13,10 @@
  *           thread ids, one per sync point passed) says who goes next.  A thread arriving at a sync point first reports its
  *           previous step complete (pos++), then waits for its turn.  Waiting is a spin on plain atomics + nanosleep, which a
  *           ThreadSanitizer build of the library does not see as synchronisation (no happens-before edge is added by the harness).
- *   PARK    (C10) logical thread 1 stops right after its k-th acquisition of the repository mutex until the forking thread
- *           has been seen attempting the fork (its prepare handler asks for the mutex, or fork() has already returned),
- *           plus a grace period.
+ *   PARK    (C10) logical thread 1 stops right after its k-th acquisition of ANY lock (every pthread mutex, rwlock, flock) until the
+ *           fork can no longer be affected by its leaving the window: the forking thread waits for a lock held by the parked
+ *           thread (a locking prepare handler), or fork() has returned in the parent; plus a grace period.
+ *   In TRACE mode every such acquisition is logged (acq lines): the windows are enumerated from what is OBSERVED.
  *
  * Everything is appended to the trace fd in whole lines with one write() each; no pids, addresses or times are logged
  * except where a line says so (tid map), which the check canonicalises. */
@@ -32,6 +33,7 @@
 #include <time.h>
 #include <unistd.h>
 #include <sys/syscall.h>
+#include <sys/file.h>
 
 enum { MODE_OFF = 0, MODE_TRACE = 1, MODE_FORCE = 2, MODE_PARK = 3 };
 #define MAXSCHED 65536
@@ -49,6 +51,10 @@ static void *g_mutex = NULL, *g_once = NULL;
 static int g_park_k = 0;
 static volatile int g_parked = 0, g_released = 0, g_main_lock_attempt = 0, g_fork_returned = 0, g_acq_count = 0;
 static int g_grace_ms = 150;
+static volatile int g_main_waits = 0;    /* the forking thread asked for a lock the parked thread holds */
+#define MAXHELD 64
+static void *volatile g_held[MAXHELD];   /* locks currently held by logical thread 1 (PARK mode) */
+static volatile int g_nheld = 0;
 
 static __thread int my_id = -1;         /* logical thread id, -1 = not under control */
 static __thread int my_running = 0;     /* this thread was granted a step that is not yet reported complete */
@@ -56,12 +62,22 @@ static __thread int my_call = -1;
 
 static int (*real_lock)(pthread_mutex_t *);
 static int (*real_unlock)(pthread_mutex_t *);
+static int (*real_trylock)(pthread_mutex_t *);
 static int (*real_once)(pthread_once_t *, void (*)(void));
+static int (*real_rdlock)(pthread_rwlock_t *);
+static int (*real_wrlock)(pthread_rwlock_t *);
+static int (*real_rwunlock)(pthread_rwlock_t *);
+static int (*real_flock)(int, int);
 
 static void resolve(void) {
     if (!real_lock) real_lock = (int (*)(pthread_mutex_t *)) dlsym(RTLD_NEXT, "pthread_mutex_lock");
     if (!real_unlock) real_unlock = (int (*)(pthread_mutex_t *)) dlsym(RTLD_NEXT, "pthread_mutex_unlock");
     if (!real_once) real_once = (int (*)(pthread_once_t *, void (*)(void))) dlsym(RTLD_NEXT, "pthread_once");
+    if (!real_trylock) real_trylock = (int (*)(pthread_mutex_t *)) dlsym(RTLD_NEXT, "pthread_mutex_trylock");
+    if (!real_rdlock) real_rdlock = (int (*)(pthread_rwlock_t *)) dlsym(RTLD_NEXT, "pthread_rwlock_rdlock");
+    if (!real_wrlock) real_wrlock = (int (*)(pthread_rwlock_t *)) dlsym(RTLD_NEXT, "pthread_rwlock_wrlock");
+    if (!real_rwunlock) real_rwunlock = (int (*)(pthread_rwlock_t *)) dlsym(RTLD_NEXT, "pthread_rwlock_unlock");
+    if (!real_flock) real_flock = (int (*)(int, int)) dlsym(RTLD_NEXT, "flock");
     if (!g_mutex) g_mutex = dlsym(RTLD_DEFAULT, "snoopy_tsrm_threadRepo_mutex");
     if (!g_once) g_once = dlsym(RTLD_DEFAULT, "snoopy_tsrm_init_onceControl");
 }
@@ -130,32 +146,94 @@ void sched_point(int kind) { sync_point((char) kind, "caller"); }
 void sched_thread_end(void) { sync_point('X', "caller"); my_id = -1; }
 
 /* ---- interposers -------------------------------------------------------------------------------------------- */
+static void held_add(void *l) { int n = g_nheld; if (n < MAXHELD) { g_held[n] = l; __atomic_store_n(&g_nheld, n + 1, __ATOMIC_SEQ_CST); } }
+static void held_del(void *l) { int n = g_nheld; for (int i = n - 1; i >= 0; i--) if (g_held[i] == l) { g_held[i] = g_held[n - 1]; __atomic_store_n(&g_nheld, n - 1, __ATOMIC_SEQ_CST); return; } }
+static int held_has(void *l) { int n = __atomic_load_n(&g_nheld, __ATOMIC_SEQ_CST); for (int i = 0; i < n; i++) if (g_held[i] == l) return 1; return 0; }
+
+/* PARK mode, forking thread: it is about to wait for lock l */
+static void main_attempt(void *l) {
+    if (my_id == 0 && g_parked && !g_released) {
+        __atomic_store_n(&g_main_lock_attempt, 1, __ATOMIC_SEQ_CST);
+        if (held_has(l)) __atomic_store_n(&g_main_waits, 1, __ATOMIC_SEQ_CST);
+    }
+}
+
+/* an acquisition of ANY lock (kind: m mutex of the repository, M other mutex, r/w rwlock, f flock) by a logical thread */
+static void acquired(char kind, void *l, void *ra) {
+    if (my_id < 0) return;
+    if (g_mode == MODE_TRACE) { tr("acq\t%d\t%d\t%c\t%s\n", __atomic_fetch_add(&g_seq, 1, __ATOMIC_SEQ_CST), my_id, kind, site_of(ra)); return; }
+    if (g_mode != MODE_PARK || my_id != 1) return;
+    held_add(l);
+    if (g_parked || __atomic_add_fetch(&g_acq_count, 1, __ATOMIC_SEQ_CST) != g_park_k) return;
+    tr("parked\t%d\t%c\t%s\n", g_park_k, kind, site_of(ra));
+    __atomic_store_n(&g_parked, 1, __ATOMIC_SEQ_CST);
+    /* go on only when the fork can no longer be affected by this thread leaving the window: the forking thread is waiting for a lock
+       held here (then it cannot fork before we release it), or fork() has returned in the parent */
+    long waited = 0;
+    while (!__atomic_load_n(&g_main_waits, __ATOMIC_SEQ_CST) && !__atomic_load_n(&g_fork_returned, __ATOMIC_SEQ_CST) && waited < 30000000) { nap(500); waited += 500; }
+    nap((long) g_grace_ms * 1000);
+    tr("release\t%s\n", g_fork_returned ? "after-fork-returned" : (g_main_waits ? "fork-waiting-for-a-lock-held-here" : "no-fork-seen"));
+    __atomic_store_n(&g_released, 1, __ATOMIC_SEQ_CST);
+}
+static void released_lock(void *l) { if (g_mode == MODE_PARK && my_id == 1) held_del(l); }
+
 int pthread_mutex_lock(pthread_mutex_t *m) {
     resolve();
-    if (g_mode == MODE_OFF || (void *) m != g_mutex || !g_mutex) return real_lock(m);
+    if (g_mode == MODE_OFF) return real_lock(m);
+    int is_repo = g_mutex && (void *) m == g_mutex;
     if (g_mode == MODE_PARK) {
-        if (my_id == 0) __atomic_store_n(&g_main_lock_attempt, 1, __ATOMIC_SEQ_CST);     /* the forking thread asks for the mutex */
+        main_attempt(m);
         int r = real_lock(m);
-        if (my_id == 1 && !g_parked && __atomic_add_fetch(&g_acq_count, 1, __ATOMIC_SEQ_CST) == g_park_k) {
-            tr("parked\t%d\t%s\n", g_park_k, site_of(__builtin_return_address(0)));
-            __atomic_store_n(&g_parked, 1, __ATOMIC_SEQ_CST);
-            long waited = 0;
-            while (!__atomic_load_n(&g_main_lock_attempt, __ATOMIC_SEQ_CST) && !__atomic_load_n(&g_fork_returned, __ATOMIC_SEQ_CST) && waited < 20000000) { nap(500); waited += 500; }
-            nap((long) g_grace_ms * 1000);
-            tr("release\t%s\n", g_fork_returned ? "after-fork-returned" : (g_main_lock_attempt ? "fork-waiting-for-mutex" : "no-fork-seen"));
-            __atomic_store_n(&g_released, 1, __ATOMIC_SEQ_CST);
-        }
+        if (r == 0) acquired(is_repo ? 'm' : 'M', m, __builtin_return_address(0));
         return r;
     }
+    if (!is_repo) { int r = real_lock(m); if (r == 0) acquired('M', m, __builtin_return_address(0)); return r; }
     sync_point('L', site_of(__builtin_return_address(0)));
-    return real_lock(m);
+    int r = real_lock(m);
+    if (r == 0) acquired('m', m, __builtin_return_address(0));
+    return r;
+}
+
+int pthread_mutex_trylock(pthread_mutex_t *m) {
+    resolve();
+    int r = real_trylock(m);
+    if (g_mode != MODE_OFF && r == 0) acquired((g_mutex && (void *) m == g_mutex) ? 'm' : 'M', m, __builtin_return_address(0));
+    return r;
 }
 
 int pthread_mutex_unlock(pthread_mutex_t *m) {
     resolve();
-    if (g_mode == MODE_OFF || g_mode == MODE_PARK || (void *) m != g_mutex || !g_mutex) return real_unlock(m);
+    if (g_mode == MODE_OFF) return real_unlock(m);
+    if (g_mode == MODE_PARK) { released_lock(m); return real_unlock(m); }
+    if ((void *) m != g_mutex || !g_mutex) return real_unlock(m);
     sync_point('U', site_of(__builtin_return_address(0)));
     return real_unlock(m);
+}
+
+int pthread_rwlock_rdlock(pthread_rwlock_t *l) {
+    resolve();
+    if (g_mode == MODE_PARK) main_attempt(l);
+    int r = real_rdlock(l);
+    if (g_mode != MODE_OFF && r == 0) acquired('r', l, __builtin_return_address(0));
+    return r;
+}
+int pthread_rwlock_wrlock(pthread_rwlock_t *l) {
+    resolve();
+    if (g_mode == MODE_PARK) main_attempt(l);
+    int r = real_wrlock(l);
+    if (g_mode != MODE_OFF && r == 0) acquired('w', l, __builtin_return_address(0));
+    return r;
+}
+int pthread_rwlock_unlock(pthread_rwlock_t *l) {
+    resolve();
+    if (g_mode != MODE_OFF) released_lock(l);
+    return real_rwunlock(l);
+}
+int flock(int fd, int op) {
+    resolve();
+    int r = real_flock(fd, op);
+    if (g_mode != MODE_OFF && r == 0 && (op & (LOCK_EX | LOCK_SH))) acquired('f', (void *)(long)(fd + 1), __builtin_return_address(0));
+    return r;
 }
 
 int pthread_once(pthread_once_t *ctl, void (*fn)(void)) {
